@@ -117,6 +117,8 @@ def sub_roundtrip(sh, site, s):
     c1 = am.strip_comments(walk.content(db2))
     items = am.diff_items(c0, c1)
     sp = SITE_PATH[site]
+    if site in ('default', 'expr'):
+        sp = sp[:-len('[1]')]          # kind and value of the default are one site
     for p, a, b in items:
         if p == sp or p.startswith(sp) or sp.startswith(p):
             sh.violation('rt', f'rt:text-altered@{site}:{tc}', f'{site} {s!r}: came back as {b!r}', dict(case, dbml=d1), {'site': site, 'tc': tc})
@@ -221,6 +223,13 @@ def strings(tier):
     # targeted: blanks at the end of a non-final line; parenthesised expressions; backslashes before quotes
     out += ['a \nb', 'a  \n  b', 'x \n\ny  \nz', '(a)', '(a) + (b)', '(lower(x))', '((a))', 'f(a)', 'a)', '(a',
             "it\\'s", 'C:\\temp', 'a\\\\b', '\\"', 'e\u0301', '\u2126']
+    # targeted (coincidences): texts of a particular length, texts with `, ` that make a settings list long, template-like
+    # placeholders and back-references, texts spelled like the names / keywords of the host document
+    out += ['x' * k for k in (63, 64, 99, 100, 101, 120, 127, 128, 129, 255, 256, 257, 300, 1000, 4096)]
+    out += ['w, ' * 40 + 'end', 'first, second', 'a,  b', 'long enough to wrap ' * 6 + ', tail', 'a, b\nc, d']
+    out += ['{name}', '{text}', '{0}', '{}', '{{}}', '%s', '%(name)s', '%d', '$name', '${name}', '\\1', '\\g<0>', '{name} and {text}',
+            'see {name}', '{note}', '{self}']
+    out += ['stk', 'tbl', 'col', 'grp', 'prj', 'it', 'k', 'ixn', 'text', 'name', 'note', 'null', 'true', 'false', 'NULL', 'None', '0', '42', '4.5', '-1', '1e5']
     # targeted: runs of quotes in multi-line texts and at the edges
     for core in ("'''", "''''", "a'''", "'''a", "a'''b", "''", "a''", "'a'"):
         out += [core + '\nx', 'x\n' + core, 'x\n' + core + '\ny']
